@@ -109,13 +109,22 @@ def run(scn, stats):
 
 CFG = gen.cfg(items=0.15, retry=0.2, p_loop=0.35, retry_cmd=True)
 FLAGS = {"pause": 1, "cancel": 1, "restore": 1}
+CONTROLS = {"rerun": 1}
 
 
 def strategy(tier):
-    base = gen.scenario(CFG, flags=FLAGS, p_fail=0.2, max_choices=50)
+    base = gen.scenario(CFG, flags=FLAGS, p_fail=0.2, max_choices=50, controls=CONTROLS)
+    return st.builds(lambda s, rr: dict(s, rerun=rr), base, st.booleans())
+
+
+def strat_directed(tier):
+    # joins with a count that retry or iterate, arrivals while the join waits for a retry / runs / has failed,
+    # and a rerun requested as soon as the workflow has failed (stale siblings still in flight)
+    base = gen.directed_scenario(gen.fork_join_ir(items=True, retry=True), flags={"restore": 0}, controls={"rerun": 1, "pause": 1, "resume": 1}, max_choices=50, p_fail=0.35)
     return st.builds(lambda s, rr: dict(s, rerun=rr), base, st.booleans())
 
 
 PARTS = [
-    Part("walk", run, strategy, {"quick": 2400, "thorough": 60000}, rule=RULE),
+    Part("walk", run, strategy, {"quick": 1800, "thorough": 50000}, rule=RULE),
+    Part("fork-join", run, strat_directed, {"quick": 1600, "thorough": 40000}, rule="directed fork-join definitions whose join retries / iterates, with a rerun placed right after the failure"),
 ]
